@@ -167,7 +167,41 @@ class Effects:
         self.n_resolved = 0
         self.n_lib = 0
         self.unresolved = {}
+        self._pbind = None
         self._fix()
+
+    def param_bindings(self, f, param):
+        """callables bound to parameter `param` of the *private* function f at its call sites inside the analysed
+        modules: [(caller FuncInfo, argument expression)], or None when a site passes something other than a dotted
+        name (closed world: a leading underscore marks f as not callable by users)."""
+        if self._pbind is None:
+            self._pbind = {}
+            for g in self.funcs:
+                for c in walk_no_nested(g.node):
+                    if not isinstance(c, ast.Call):
+                        continue
+                    tgt = self.resolve_call(g, c)
+                    if tgt is None or tgt[0] != 'funcs':
+                        continue
+                    for callee in tgt[1]:
+                        params = list(callee.params)
+                        if tgt[2] in ('cls', 'self') and params:
+                            params = params[1:]
+                        if any(isinstance(a, ast.Starred) for a in c.args) or any(k.arg is None for k in c.keywords):
+                            for p_ in params:
+                                self._pbind.setdefault((callee, p_), []).append((g, None))
+                            continue
+                        for i, a in enumerate(c.args):
+                            if i < len(params):
+                                self._pbind.setdefault((callee, params[i]), []).append((g, a))
+                        for k in c.keywords:
+                            self._pbind.setdefault((callee, k.arg), []).append((g, k.value))
+        if not f.name.startswith('_') or f.name.startswith('__'):
+            return None
+        sites = self._pbind.get((f, param))
+        if not sites or any(a is None or dotted_name(a) is None for _, a in sites):
+            return None
+        return sites
 
     # ------------------------------------------------------------ fixpoint
     def _fix(self):
@@ -845,6 +879,26 @@ class _Walker:
     def local_callable(self, name, c, args, kws, allargs, fresh):
         key = (self.f.name, name)
         decl = DECLARED_CALLABLES.get(key)
+        if decl is None and name in self.f.params + self.f.kwonly:
+            # a callable parameter of a private helper: every callable its call sites pass is applied
+            sites = self.e.param_bindings(self.f, name)
+            if sites:
+                out = None
+                for caller, expr in sites:
+                    fake = ast.copy_location(ast.Call(func=expr, args=c.args, keywords=c.keywords), c)
+                    tgt = self.e.resolve_call(caller, fake)
+                    if tgt is None or tgt[0] not in ('lib', 'funcs', 'builtin'):
+                        out = None
+                        break
+                    if tgt[0] == 'lib':
+                        out = join(out, self.lib(tgt[1], c, args, kws, fresh))
+                    elif tgt[0] == 'builtin':
+                        out = join(out, EMPTY if tgt[1] in BUILTIN_PURE else fresh)
+                    else:
+                        for callee in tgt[1]:
+                            out = join(out, self.apply(callee, tgt[2], c, args, kws, None, False, EMPTY))
+                if out is not None:
+                    return out
         if decl is None:
             if any(r[0] == 'p' for r in allargs):
                 self.s.unknown.append((c, 'call of local/parameter callable `%s`' % name))
